@@ -22,7 +22,7 @@ func init() {
 		ID: "C13",
 		Rule: "conformant-session: breadth-first over the states of the model IRC network (users me,A,B; channels #x,#y; every legal event in every state; " +
 			"dedupe on the canonical model state incl. the revealed-privileges view and which users' details were told); one real tracked session per (state, visible event): " +
-			"the state's shortest history + the event, tracker compared with the oracle view after EVERY event of the session; a case = one (state,event) pair, distinct = distinct model states compared. " +
+			"the state's shortest history + the event, tracker compared with the oracle view after EVERY event of the session; a case = one (state,event) pair, distinct = distinct model states compared; the sessions are run in the default spelling of the protocol and, one level less deep, in three others (optional PART/KICK/QUIT reasons absent or empty, NICK without and JOIN with a colon, privilege letter pairs o/h, a/v, q/h with their NAMES prefixes, topics with leading/trailing blanks and colons). " +
 			"arbitrary-lines: breadth-first over the tracker's observable structure (tracked nicks, channels, memberships, own nick over the whole token universe), " +
 			"every line of the alphabet applied in every state by a fresh session replaying the state's shortest line history + the line; a case = one (state,line) pair, distinct = distinct tracker states.",
 		Assumptions: []string{
@@ -47,7 +47,16 @@ func c13Jobs(tier string) []Job {
 	for j := 0; j < n1; j++ {
 		j := j
 		name := fmt.Sprintf("conformant-session/depth=%d/part=%02dof%d", depth1, j, n1)
-		jobs = append(jobs, Job{Name: name, Cost: 10, Run: func(jc *JobCtx) *JobResult { return c13SessionJob(jc, name, depth1, j, n1) }})
+		jobs = append(jobs, Job{Name: name, Cost: 10, Run: func(jc *JobCtx) *JobResult { return c13SessionJob(jc, name, depth1, j, n1, 0) }})
+	}
+	// the same sessions in the other spellings of the protocol (one level less deep)
+	for st := 1; st < len(c13Styles); st++ {
+		const n = 12
+		for j := 0; j < n; j++ {
+			j, st := j, st
+			name := fmt.Sprintf("conformant-session/style=%s/depth=%d/part=%02dof%d", c13Styles[st].Name, depth1-1, j, n)
+			jobs = append(jobs, Job{Name: name, Cost: 5, Run: func(jc *JobCtx) *JobResult { return c13SessionJob(jc, name, depth1-1, j, n, st) }})
+		}
 	}
 	jobs = append(jobs, c13LineJobs(tier, depth2)...)
 	return jobs
@@ -64,8 +73,14 @@ func c13PrivStr(p *state.ChanPrivs) string {
 	return fmt.Sprintf("{q:%v a:%v o:%v h:%v v:%v}", p.Owner, p.Admin, p.Op, p.HalfOp, p.Voice)
 }
 
+// c13PrivsEqual: the style's higher privilege letter carries the model's "op", the lower one its "voice";
+// the three other privileges are never granted.
 func c13PrivsEqual(p *state.ChanPrivs, want c13Privs) bool {
-	return p != nil && p.Op == want.Op && p.Voice == want.Voice && !p.Owner && !p.Admin && !p.HalfOp
+	if p == nil {
+		return false
+	}
+	exp := map[byte]bool{c13Style.Hi: want.Op, c13Style.Lo: want.Voice}
+	return p.Owner == exp['q'] && p.Admin == exp['a'] && p.Op == exp['o'] && p.HalfOp == exp['h'] && p.Voice == exp['v']
 }
 
 // c13Compare queries the tracker for every channel name, every nick name
@@ -201,7 +216,11 @@ const c13Welcome = ":srv 001 me :Welcome to the network me!ident@host"
 // c13RunSession pushes one history through ONE real tracked client, the model
 // server answering the client's own requests after every event, and compares
 // after every event. It stops at the first event with a mismatch.
-func c13RunSession(hist []c13Ev) *c13SessResult {
+func c13RunSession(hist []c13Ev) *c13SessResult { return c13RunSessionStyle(hist, 0) }
+
+func c13RunSessionStyle(hist []c13Ev, style int) *c13SessResult {
+	c13Style = c13Styles[style]
+	defer func() { c13Style = c13Styles[0] }()
 	r := &c13SessResult{FailAt: -2}
 	o := RunSeq(vx.Options{}, func(env *vx.Env) {
 		s, err := StartSession(env, "me", nil, func(c *client.Conn) { c.EnableStateTracking() })
@@ -300,7 +319,7 @@ func c13GraphFor(depth int) *c13Graph {
 	return g
 }
 
-func c13SessionJob(jc *JobCtx, name string, depth, part, parts int) *JobResult {
+func c13SessionJob(jc *JobCtx, name string, depth, part, parts, style int) *JobResult {
 	const family = "conformant-session"
 	e := NewEnum(name)
 	g := c13GraphFor(depth)
@@ -323,7 +342,7 @@ loop:
 				continue // invisible to the client: nothing to push through it
 			}
 			h := append(append([]c13Ev(nil), hist...), ev)
-			r := c13RunSession(h)
+			r := c13RunSessionStyle(h, style)
 			sessions++
 			compared += int64(r.Compared)
 			fed += int64(r.Fed)
@@ -354,7 +373,7 @@ loop:
 				states++
 			}
 			if r.Outcome != "ok" {
-				e.Fail(family, r.Outcome, "welcome; "+c13HistText(h, len(h))+" || lines: "+joinQ(r.Lines), "session outcome "+r.Outcome+" "+r.CrashMsg, map[string]interface{}{"depth": depth, "events": c13EncodeHist(h)})
+				e.Fail(family, r.Outcome, "welcome; "+c13HistText(h, len(h))+" || lines: "+joinQ(r.Lines), "session outcome "+r.Outcome+" "+r.CrashMsg, map[string]interface{}{"depth": depth, "events": c13EncodeHist(h), "style": style})
 			} else if r.FailAt != -2 {
 				if r.Final != t && r.FailAt == len(h)-1 {
 					// cannot happen: the model is deterministic
@@ -369,7 +388,7 @@ loop:
 					e.Fail(family, m.Oracle,
 						"welcome; "+c13HistText(h, r.FailAt)+" || lines: "+joinQ(r.Lines),
 						fmt.Sprintf("after event %d (%s): %s", r.FailAt+1, c13EvName(h, r.FailAt), m.Msg),
-						map[string]interface{}{"depth": depth, "events": c13EncodeHist(h[:r.FailAt+1])})
+						map[string]interface{}{"depth": depth, "events": c13EncodeHist(h[:r.FailAt+1]), "style": style})
 				}
 			}
 			if sampled < 2 && len(h) >= 3 && r.FailAt == -2 {
@@ -452,7 +471,12 @@ func c13Replay(v *Violation) int {
 			fmt.Println("cannot decode params.events; input:", v.Input)
 			return 2
 		}
-		r := c13RunSession(h)
+		style := 0
+		if f, ok := v.Params["style"].(float64); ok && int(f) < len(c13Styles) {
+			style = int(f)
+		}
+		r := c13RunSessionStyle(h, style)
+		fmt.Println("style:", c13Styles[style].Name)
 		fmt.Println("history: welcome;", c13HistText(h, len(h)))
 		for _, l := range r.Lines {
 			fmt.Println("  S>", l)
